@@ -448,6 +448,11 @@ def run_case(case, ctx):
                 want_doc = {"existing": {"x": 1}, "n": 5} if case["doc"] else {}
                 if {k: v for k, v in pdoc.items() if k != "signac_project_name"} != want_doc:
                     oracle.append("project document changed: %r -> %r" % (want_doc, pdoc))
+                # the project name moves from the configuration into the document, exactly (default name: not at all)
+                want_name = None if case["name"] == "None" else case["name"]
+                if pdoc.get("signac_project_name") != want_name:
+                    oracle.append("project name %r arrived in the project document as %r" % (
+                        want_name, pdoc.get("signac_project_name")))
                 for rel in ("README.txt", "scripts/run.py"):
                     if after.get(rel) != before.get(rel):
                         oracle.append("unrelated file %s changed" % rel)
